@@ -369,6 +369,14 @@ Definition region_for_haps (t : tinput) : option region :=
 Definition transformable (ids : list Z) (h : hap) : bool :=
   forallb (fun v => memZ (hv_id v) ids) (h_vars h).
 
+(* "N variant(s) could not be found in the genotypes file ...": the warning that reports the
+   variants (and hence haplotypes) that cannot be transformed *)
+Definition warns_missing (t : tinput) : bool :=
+  let sel := filter (hap_selected (region_for_haps t) (t_ids t)) (t_haps t) in
+  let want := dedupZ [] (flat_map (fun h => map hv_id (h_vars h)) (real_haps sel)) in
+  let vs := keep (map (var_selected (t_region t) want) (t_vars t)) (t_vars t) in
+  (length vs <? length want)%nat.
+
 Definition transform_haps_gen (alt1 overflow bporder repattr : bool) (t : tinput)
   : res (list (Z * Z * Z) * list Z * list (list (bool * bool))) :=
   let sel := filter (hap_selected (region_for_haps t) (t_ids t)) (t_haps t) in
